@@ -752,6 +752,9 @@ func c17HandlerConfigs(r *vrt.Run) (cfgs []c17Config) {
 		cfgs = append(cfgs, c17Config{2, 2, backoff, p, d - 1})
 	}
 	if r.Thorough() {
+		// A backoff equal to the time a timed-out probe blocks, and a tiny one.
+		cfgs = append(cfgs, c17Config{2, 2, int64(c17UpsTimeout / time.Millisecond), []string{c17Timeout}, d},
+			c17Config{2, 1, 1, []string{c17NetErr}, d})
 		// One level deeper for the central configuration.
 		cfgs = append(cfgs, c17Config{2, 2, backoff, []string{c17NetErr}, d + 1}, c17Config{2, 2, backoff, []string{c17Timeout}, d + 1})
 	}
